@@ -14,7 +14,8 @@ Open Scope Z_scope.
    13 clip                 14 extend_to_size (fragment length k_d; tag 1 = '+', 0 = '-')
    Geometry routes on chromosome number k_rank of a genome with chromosome sizes k_sizes:
    16 Geometry.get_pileup  17 Geometry.get_mask      18 Geometry.merge_intervals   7 Geometry.sort (tags = ranks)
-   15 Geometry.jaccard *)
+   15 Geometry.jaccard
+   19 jaccard / 20 forbes on a genome with several contigs (tags of k_a, k_b = contig rank, k_sizes = contig sizes) *)
 Record case := {
   k_op : Z; k_size : Z; k_d : Z;
   k_sizes : list Z; k_rank : Z;            (* Geometry routes: chromosome sizes of the genome, rank of the contig *)
@@ -41,6 +42,11 @@ Definition genome_ok (c : case) : bool :=
 Definition sort_row_ok (sizes : list Z) (t : tiv) : bool :=
   (0 <=? t_tag t) && (t_tag t <? len sizes) && (0 <=? t_start t) && (t_start t <? gsize sizes (t_tag t))
   && (t_start t <=? t_stop t) && (t_stop t <=? gsize sizes (t_tag t)).
+Definition on_contig (r : Z) (l : list tiv) : list iv := map untag (filter (fun t => t_tag t =? r) l).
+Definition genome_of (c : case) : list contig :=
+  map (fun r => (gsize (k_sizes c) r, on_contig r (k_a c), on_contig r (k_b c))) (arange (len (k_sizes c))).
+Definition genome_row_ok (sizes : list Z) (t : tiv) : bool :=
+  (0 <=? t_tag t) && (t_tag t <? len sizes) && (0 <=? t_start t) && (t_start t <=? t_stop t) && (t_stop t <=? gsize sizes (t_tag t)).
 Definition domain (c : case) : bool :=
   let s := k_size c in
   (1 <=? s) &&
@@ -48,6 +54,8 @@ Definition domain (c : case) : bool :=
   | 16 | 17 => wf s (A c) && genome_ok c
   | 18 => wf s (A c) && nonempty (A c) && sortedb Z.leb (map fst (A c)) && (0 <=? k_d c) && genome_ok c
   | 7 => forallb (fun z => 1 <=? z) (k_sizes c) && forallb (sort_row_ok (k_sizes c)) (k_a c)
+  | 19 | 20 => forallb (fun z => 1 <=? z) (k_sizes c) && forallb (genome_row_ok (k_sizes c)) (k_a c)
+               && forallb (genome_row_ok (k_sizes c)) (k_b c)
   | 1 | 2 | 3 => wf s (A c)
   | 4 => wf s (A c) && nonempty (A c) && sortedb Z.leb (map fst (A c)) && (0 <=? k_d c)
   | 5 | 6 => wf s (A c)
@@ -84,6 +92,8 @@ Definition spec_ok (c : case) : bool :=
           && forallb (fun o => (fst o <? snd o) || existsb (iv_eqb o) (A c)) (out_ivs c)
   | 11 | 15 => frac_close c (jaccard_spec (A c) (B c) s)
   | 12 => frac_close c (forbes_spec (A c) (B c) s)
+  | 19 => frac_close c (jaccard_genome_spec (genome_of c))
+  | 20 => frac_close c (forbes_genome_spec (genome_of c))
   | 13 => clip_spec_ok s (A c) (out_ivs c)
   | 14 => extend_spec_ok s (k_d c) (k_a c) (k_ivs c)
   | _ => false
@@ -119,6 +129,8 @@ Definition model_ok (c : case) : bool :=
   | 10 => opt_ok c (unique_intersect_model (A c) (B c) s) (ivs_eqb (out_ivs c))
   | 11 => res_ok c (jaccard_stream_model (A c) (B c) s) (frac_close c)
   | 12 => res_ok c (forbes_stream_model (A c) (B c) s) (frac_close c)
+  | 19 => res_ok c (jaccard_genome_model (genome_of c)) (frac_close c)
+  | 20 => res_ok c (forbes_genome_model (genome_of c)) (frac_close c)
   | 15 => opt_ok c (geom_jaccard_model (k_sizes c) (k_rank c) (A c) (B c)) (frac_close c)
   | 13 => (k_err c =? 0) && ivs_eqb (out_ivs c) (clip_model s (A c))
   | 14 => (k_err c =? 0) && tivs_eqb (k_ivs c) (extend_model s (k_d c) (k_a c))
